@@ -940,7 +940,7 @@ def _cases(tier, rng):
         for x in NUMS:
             for y in (DIGITS if name in ('ROUND', 'ROUNDUP', 'ROUNDDOWN', 'TRUNC') else [0, 1, -1, 2, 0.5, -0.5, 3, 0.25, 10, -2]):
                 out.append(('math', name, [x, y]))
-    n = 400 if tier == 'quick' else 8000
+    n = 400 if tier == 'quick' else 40000
     for _ in range(n):
         name = rng.choice(['ROUND', 'ROUNDUP', 'ROUNDDOWN', 'MOD', 'CEILING', 'FLOOR', 'POWER', 'EVEN', 'ODD', 'INT', 'TRUNC'])
         x = round(rng.uniform(-1000, 1000), rng.randrange(0, 4))
